@@ -619,8 +619,25 @@ pub fn check() -> Option<Check> {
             check_limits(&back, "from_ascii")?;
             // Display / FromStr use the UTF-8 path, which may lower-case (DNS-equal): equality only
             let disp = n.to_string();
-            if let Ok(b2) = disp.parse::<Name>() {
-                vensure!(b2 == n, "display-fromstr-not-equal", "{} -> {disp:?} -> {}", m.show(), MName::from_name(&b2).show());
+            match disp.parse::<Name>() {
+                Ok(b2) => vensure!(b2 == n, "display-fromstr-not-equal", "{} -> {disp:?} -> {}", m.show(), MName::from_name(&b2).show()),
+                Err(e) => {
+                    // does every label, displayed on its own, come back? Then Display is right about each
+                    // of them and it is the *combination* that the UTF-8 parse path refuses (one label
+                    // turned into Unicode makes UTS-46 STD3 rules apply to its neighbours as well)
+                    let each_alone = m.labels.iter().all(|l| {
+                        let Ok(mut one) = Name::from_labels(vec![l.as_slice()]) else { return false };
+                        one.set_fqdn(true);
+                        one.to_string().parse::<Name>().is_ok_and(|b| b == one)
+                    });
+                    if each_alone && !disp.is_ascii() && !disp.contains('\u{FFFD}') {
+                        vfail!("display-of-idn-label-beside-non-std3-label-unparseable", "{} is displayed as {disp:?}, which does not parse: {e}", m.show());
+                    }
+                    vfail!("display-output-unparseable", "{} is displayed as {disp:?}, which does not parse: {e}", m.show())
+                }
+            }
+            if m.labels.iter().any(|l| l.starts_with(b"xn--")) {
+                rec.class("label-with-ace-prefix");
             }
             let has_dot = m.labels.iter().any(|l| l.contains(&b'.'));
             let has_star = m.labels.iter().any(|l| l[0] == b'*');
@@ -679,7 +696,7 @@ pub fn check() -> Option<Check> {
         level: "exploration",
         rule: "names: 0..127 labels of arbitrary octets (class mix: LDH, _srv, *, octets around the letter ranges, 0x00/0x80-0xFF, 63-octet labels, names packed to 250..255 wire octets, 100+ one-octet labels); pairs/triples derived by case flips, bit-5 flips of non-letters, one-octet edits, label insert/drop/split/merge, shared suffixes. Non-trivial = distinct case AND (equal-mod-case but not identical, or exactly one differing octet, or mixed FQDN flags, or first difference in a non-rightmost label / ancestor relation, or a length-boundary name, or the wire form used a compression pointer or lies at/after offset 0x3FFF, or a constructor program reached a length limit)",
         assumptions: vec![
-            "text clause asserted only for the alphabet the statement names (letters, digits, hyphen not leading, underscore, escaped dot, leading asterisk)",
+            "text clause asserted only for the alphabet the statement names (letters, digits, hyphen not leading, underscore, escaped dot, leading asterisk); it is asserted for both text forms: to_ascii()/from_ascii() must give back the identical name, Display/FromStr (which turns valid ACE labels into Unicode and may lower-case) must parse and give an equal name",
             "hash consistency checked with two fixed hashers",
         ],
         subs: vec![eq_hash, order_pairs, order_sort, order_triples, wire, text, constructors, small],
